@@ -14,9 +14,9 @@ var untimedAssumptions = []string{
 
 func init() {
 	checks["C01"] = func(prop, tier string) int {
-		p := []plan{{"all1", 30}, {"rep2-d3", 30}, {"part2-d4", 40}, {"rep3-d3", 135}, {"crash3-d2", 67}, {"net3-d2", 30}, {"regained5-d2", 70}, {"slowapply3-d2", 30}, {"filecrash3-d2", 30}}
+		p := []plan{{"all1", 30}, {"rep2-d3", 30}, {"part2-d4", 40}, {"rep3-d3", 135}, {"crash3-d2", 67}, {"net3-d2", 30}, {"regained5-d2", 70}, {"slowapply3-d2", 30}, {"filecrash3-d2", 30}, {"revote3-d2", 30}}
 		if tier == "thorough" {
-			p = []plan{{"all1", 10}, {"all2", 150}, {"rep2-d5", 100}, {"rep3-d4", 500}, {"crash3-d3", 300}, {"net3-d3", 120}, {"lead3-d3", 300}, {"rep4-d3", 150}, {"rep5-d2", 60}, {"crash5-d2", 120}, {"part2-d5", 100}, {"part3-d3", 400}, {"part4-d3", 400}, {"regained5-d3", 300}, {"stale5-d3", 300}, {"slowapply3-d3", 400}, {"filecrash3-d3", 300}}
+			p = []plan{{"all1", 10}, {"all2", 150}, {"revote3-d4", 300}, {"rep2-d5", 100}, {"rep3-d4", 500}, {"crash3-d3", 300}, {"net3-d3", 120}, {"lead3-d3", 300}, {"rep4-d3", 150}, {"rep5-d2", 60}, {"crash5-d2", 120}, {"part2-d5", 100}, {"part3-d3", 400}, {"part4-d3", 400}, {"regained5-d3", 300}, {"stale5-d3", 300}, {"slowapply3-d3", 400}, {"filecrash3-d3", 300}}
 		}
 		sp := []schedPlan{{"sched-rep3", 2, 60}}
 		if tier == "thorough" {
@@ -25,9 +25,9 @@ func init() {
 		return clusterCheckSched(prop, tier, p, []string{"leader_present", "op_applied_on_2plus_nodes", "restarted_node_up", "op_acked"}, untimedAssumptions, nil, sp)
 	}
 	checks["C02"] = func(prop, tier string) int {
-		p := []plan{{"elect2-d3", 30}, {"elect3-d3", 92}, {"elect4-d2", 35}, {"split3-d3", 30}, {"crash3-d2", 67}, {"crash2-d3", 50}, {"part2-d4", 40}, {"filesplit3-d2", 30}, {"filecrash3-d2", 30}}
+		p := []plan{{"elect2-d3", 30}, {"elect3-d3", 92}, {"elect4-d2", 35}, {"split3-d3", 30}, {"crash3-d2", 67}, {"crash2-d3", 50}, {"part2-d4", 40}, {"filesplit3-d2", 30}, {"filecrash3-d2", 30}, {"revote3-d2", 30}}
 		if tier == "thorough" {
-			p = []plan{{"elect2-d5", 100}, {"elect3-d4", 500}, {"elect4-d3", 300}, {"elect5-d2", 120}, {"split3-d4", 200}, {"crash3-d3", 300}, {"crash2-d4", 150}, {"crash4-d2", 100}, {"filesplit3-d3", 200}, {"filecrash3-d3", 300}}
+			p = []plan{{"revote3-d4", 300}, {"elect2-d5", 100}, {"elect3-d4", 500}, {"elect4-d3", 300}, {"elect5-d2", 120}, {"split3-d4", 200}, {"crash3-d3", 300}, {"crash2-d4", 150}, {"crash4-d2", 100}, {"filesplit3-d3", 200}, {"filecrash3-d3", 300}}
 		}
 		sp := []schedPlan{{"sched-elect3", 2, 60}}
 		if tier == "thorough" {
